@@ -750,19 +750,56 @@ def check_sentence_split(ctx: Ctx) -> None:
                    "fill_markdown must not override the splitter or the minimum line length", where(fm, c))
     # the heuristic is applied to single words, in order, and sentences are the words joined by one space
     sp = repo.func(f"{ssr}:split_sentences_regex")
-    flow = prog.flow(sp)
-    loops = [h for h in flow.cfg.nodes if h.kind == "for"]
+
     def is_ws_split(e: ast.AST) -> bool:
         return isinstance(e, ast.Call) and isinstance(e.func, ast.Attribute) and e.func.attr == "split" and not e.args and not e.keywords
 
-    ok_loop = any(is_ws_split(expand_expr(prog, sp, h.ast.iter, h)) for h in loops)
+    # the word loop may live in the splitter itself or in a module-local helper / generator it hands the words to: follow the
+    # heuristic parameter to the function that calls it
+    sites: list[tuple[FuncInfo, Node, ast.Call, dict[str, tuple[FuncInfo, ast.AST, Node]]]] = []
+    work: list[tuple[FuncInfo, str, dict[str, tuple[FuncInfo, ast.AST, Node]]]] = [(sp, "heuristic", {})]
+    seen_f: set[str] = set()
+    while work:
+        f, hparam, binding = work.pop()
+        if f.qual in seen_f or len(seen_f) > 6:
+            continue
+        seen_f.add(f.qual)
+        fl = prog.flow(f)
+        for n, c in fl.all_calls():
+            if isinstance(c.func, ast.Name) and c.func.id == hparam and not fl.reaching(n, hparam)[1:]:
+                sites.append((f, n, c, binding))
+            t = prog.resolve_call(f, c)
+            if isinstance(t, list) and len(t) == 1 and t[0].module is sp.module and not isinstance(t[0].node, ast.Lambda):
+                b = bind_call(t[0], c)
+                for pn, arg in b.items():
+                    if isinstance(arg, ast.Name) and arg.id == hparam:
+                        work.append((t[0], pn, {p: (f, a, n) for p, a in b.items()}))
+    ctx.require("R-SENT-split", "calls of the sentence-end heuristic", len(sites), 1)
+    ok_loop = ok_h = bool(sites)
+    for f, n, c, binding in sites:
+        fl = prog.flow(f)
+        aorg = origins(prog, f, c.args[0], n) if c.args else frozenset()
+        ok_h = ok_h and bool(aorg) and all(o[0] == "iter" for o in aorg)
+        heads = [h for h in fl.cfg.nodes if h.kind == "for" and n in fl.loop_body_nodes(h)]
+        this = False
+        for h in heads:
+            it = expand_expr(prog, f, h.ast.iter, h)
+            if is_ws_split(it):
+                this = True
+            elif isinstance(it, ast.Name) and it.id in binding:
+                cf, carg, cn = binding[it.id]
+                this = this or is_ws_split(expand_expr(prog, cf, carg, cn))
+        ok_loop = ok_loop and this
     ctx.ob("R-SENT-split", f"{sp.qual} :: iterates over the whitespace-separated words", ok_loop,
            "sentences are assembled from text.split() words in order", where(sp, sp.node))
-    heur = [(n, c) for n, c in flow.all_calls() if isinstance(c.func, ast.Name) and c.func.id == "heuristic"]
-    ok_h = all(origins(prog, sp, c.args[0], n) and all(o[0] == "iter" for o in origins(prog, sp, c.args[0], n)) for n, c in heur) and bool(heur)
     ctx.ob("R-SENT-split", f"{sp.qual} :: heuristic applied to the current word", ok_h,
            "the end-of-sentence test looks at one word at a time (so an edit in one sentence cannot move another sentence's end)", where(sp, sp.node))
-    joins = [c for n, c in flow.all_calls() if isinstance(c.func, ast.Attribute) and c.func.attr == "join" and isinstance(c.func.value, ast.Constant)]
+    # every string assembled in the module's splitting code is words joined by one space
+    joins = []
+    for f in repo.functions.values():
+        if f.module is sp.module and not isinstance(f.node, ast.Lambda) and f.name not in ("first_sentence", "first_sentences"):
+            joins += [c for c in walk_no_nested(f.node) if isinstance(c, ast.Call) and isinstance(c.func, ast.Attribute) and c.func.attr == "join"
+                      and isinstance(c.func.value, ast.Constant)]
     ctx.ob("R-SENT-split", f"{sp.qual} :: sentences are words joined by one space", bool(joins) and all(c.func.value.value == " " for c in joins),
            "no word may be dropped or altered when sentences are assembled", where(sp, sp.node))
     try:
